@@ -24,7 +24,8 @@ ASSUMPTIONS = ["values whose reading is debatable (bound 2.0, numpy integers as 
 def bounds(tier):
     q = tier == "quick"
     return {"packing": f"B=6, alphabet (0,3,6,7,9), 1..{4 if q else 5} items, >=1 oversize; dyadic B=1 alphabet (0,1/2,1,9/8,2) 1..3 items",
-            "cbldm": f"valid multisets of 1..{4 if q else 5} items over 0..3; negative values -1,-3",
+            "packing-near": f"B=2**32 alphabet (1, 2**31, 2**32, 2**32+1, 2**33); B=1.0 alphabet (0.5, 1, 1+2**-40, 1+2**-20); B=60.0 alphabet (30, 60, 60.00000001, 61): 1..{3 if q else 4} items, >=1 oversize",
+            "cbldm": f"valid multisets of 0..{4 if q else 5} items over 0..3 (the empty list included); negative values -1,-3",
             "numitems": "arrays of 1..3 bins after 0..3 additions of items valued 0..2"}
 
 
@@ -38,8 +39,19 @@ def tasks(tier):
     seqs = [s for s in spaces.sequences(fr, 1, 3) if any(v > 1 for v in s)]
     for ch in spaces.chunked(seqs, 40):
         ts.append(("packing-dyadic", ch, 1))
+    # near-threshold oversize items: one unit above a 2**32 bin, 2**-40 above a bin of 1.0, 1e-8 above a bin of 60
+    # (a relative tolerance or a narrower number type would let them through)
+    big = (1, 2 ** 31, 2 ** 32, 2 ** 32 + 1, 2 ** 33)
+    seqs = [s for s in spaces.sequences(big, 1, 3 if q else 4) if any(v > 2 ** 32 for v in s)]
+    for ch in spaces.chunked(seqs, 40):
+        ts.append(("packing-near", ch, 2 ** 32))
+    for alpha, B in (((0.5, 1.0, 1.0 + 2.0 ** -40, 1.0 + 2.0 ** -20), 1.0), ((30.0, 60.0, 60.00000001, 61.0), 60.0)):
+        seqs = [s for s in spaces.sequences(alpha, 1, 3 if q else 4) if any(v > B for v in s)]
+        for ch in spaces.chunked(seqs, 40):
+            ts.append(("packing-near", ch, B))
     for ch in scopes.chunk_multisets(range(0, 4), 1, 4 if q else 5, 12):
         ts.append(("cbldm", ch, None))
+    ts.append(("cbldm", [()], None))      # no items at all + one invalid argument: still refused (the statement is unconditional)
     ts.append(("numitems", [None], None))
     return ts
 
@@ -87,6 +99,8 @@ def run_task(task):
             first_over = next(i for i, v in enumerate(items) if v > B)
             for a in scopes.PACK_ALGOS:
                 for fmt in (repo.FORMATS if scope == "packing" else ("list", "dict_str", "names")):
+                    if scope == "packing-near" and fmt == "names":
+                        fmt = "array"
                     for o in scopes.OUTS:
                         _must_raise(acc, {"algo": a, "items": items, "B": B, "fmt": fmt, "out": o}, first_over > 0)
         else:
